@@ -24,6 +24,7 @@ ASSUMPTIONS = ["rotation-free square pixels, |CRVAL2| <= 85 (LONPOLE = 180)",
 
 PROJ = ["SIN", "TAN", "ZEA", "ARC", "STG"]
 CRVALS = [(180.0, -45.0), (0.001, 10.0), (359.999, -85.0), (45.0, 80.0), (120.0, 0.0)]
+CRVALS_T = CRVALS + [(10.0, 90.0), (200.0, -90.0), (0.0, 0.0), (270.0, 89.0), (359.9999, -30.0)]   # thorough: exact poles, origin, wrap
 SCALES = [1.0, 10.0, 60.0]
 SHAPE = (200, 300)  # rows, cols
 SIZES = [1.0, 5.0, 20.0]
@@ -40,7 +41,7 @@ def pixels(seed):
 
 def axes(tier, seed):
     q = tier == "quick"
-    return dict(projection=PROJ, crval=CRVALS, scale_arcsec=SCALES if q else [1.0, 3.0, 10.0, 30.0, 60.0],
+    return dict(projection=PROJ, crval=CRVALS if q else CRVALS_T, scale_arcsec=SCALES if q else [1.0, 3.0, 10.0, 30.0, 60.0],
                 pixel_row_col=pixels(seed), size_px=SIZES if q else [1.0, 2.0, 5.0, 10.0, 20.0],
                 ratio=RATIOS if q else [1.0, 0.8, 0.5, 0.2],
                 angle_deg=[a + core.seed_shift(seed, 6, 3.0) for a in (ANGLES if q else [-180.0 + 15.0 * k for k in range(1, 25)])],
@@ -49,7 +50,7 @@ def axes(tier, seed):
 
 def cases(tier, seed):
     scales = SCALES if tier == "quick" else [1.0, 3.0, 10.0, 30.0, 60.0]
-    for proj, crval, sc in itertools.product(PROJ, CRVALS, scales):
+    for proj, crval, sc in itertools.product(PROJ, CRVALS if tier == "quick" else CRVALS_T, scales):
         yield "conversions", dict(proj=proj, crval=list(crval), scale=sc)
     for proj, crval, sc in itertools.product(PROJ, CRVALS[:2], [10.0]):
         yield "argtypes", dict(proj=proj, crval=list(crval), scale=sc)
@@ -293,6 +294,11 @@ def ev_conversions(case, ctx):
         if not np.hypot(sx_ - x, sy_ - y) < 1e-6:
             ctx.violation("sky2pix(%.9f, %.9f) = (%.9f, %.9f), expected %r (%s)" % (rra, rdec, sx_, sy_, pix, tag),
                           "sky2pix|" + sig)
+        if abs(float(rdec)) > 90.0 - 1e-9:
+            # the pixel IS a celestial pole: "east of north" has no meaning there, so the position-angle clauses say nothing
+            # (the point clauses above do hold and were judged)
+            ctx.count("pa_undefined_at_pole")
+            continue
         sizes = SIZES if ctx.tier == "quick" else [1.0, 2.0, 5.0, 10.0, 20.0]
         ratios = RATIOS if ctx.tier == "quick" else [1.0, 0.997, 0.8, 0.5, 0.2]
         angles = ANGLES if ctx.tier == "quick" else [-180.0 + 15.0 * k for k in range(1, 25)]
